@@ -1279,7 +1279,11 @@ func (c *e3) analyse(fn *Func) {
 					if emb != "" {
 						desc += "." + emb
 					}
-					c.judge(fn, s, c.ptrClass(fn, ptr, emb), "E3.write", "assignment to "+exprStr(l), "assignment to "+exprStr(l)+" (through "+desc+")")
+					pc := c.ptrClass(fn, ptr, emb)
+					if sc, ok := c.strongFieldClass(fn, ptr, emb, s); ok {
+						pc = sc
+					}
+					c.judge(fn, s, pc, "E3.write", "assignment to "+exprStr(l), "assignment to "+exprStr(l)+" (through "+desc+")")
 					if len(s.Lhs) == len(s.Rhs) {
 						c.storeDemotion(fn, l, s.Rhs[i])
 					}
@@ -1343,6 +1347,121 @@ func (c *e3) appendAlias(fn *Func, at ast.Node, call *ast.CallExpr, lhs ast.Expr
 	}
 	if se, ok := x.(*ast.SliceExpr); ok && se.Slice3 {
 		return
+	}
+	// `return append(x, …)` where x is a local of this function that only ever held storage
+	// made here (make, a literal, nil, or its own appends): x dies with the return and
+	// nothing else names its backing array
+	if id, isId := x.(*ast.Ident); isId && lhs == nil {
+		if _, isRet := c.p.Parent(call).(*ast.ReturnStmt); isRet {
+			if vo, isVar := info.ObjectOf(id).(*types.Var); isVar && !vo.IsField() && !rootFunc(fn).isParam(vo) && !fn.isParam(vo) &&
+				vo.Parent() != fn.Pkg.Types.Scope() && (fn.Lit == nil || (vo.Pos() > fn.Lit.Pos() && vo.Pos() < fn.Lit.End())) {
+				defs := defsOfIdent(fn, vo)
+				fresh := len(defs) > 0
+				for _, d := range defs {
+					if d == nil {
+						continue // var x []T
+					}
+					switch y := ast.Unparen(d).(type) {
+					case *ast.CompositeLit:
+					case *ast.Ident:
+						if !isNilIdent(info, y) {
+							fresh = false
+						}
+					case *ast.CallExpr:
+						if isBuiltinCall(info, y, "make") {
+							break
+						}
+						if isBuiltinCall(info, y, "append") && len(y.Args) > 0 && isIdentObj(info, y.Args[0], vo) {
+							break
+						}
+						if tv, ok := info.Types[y.Fun]; ok && tv.IsType() && len(y.Args) == 1 && isNilIdent(info, y.Args[0]) {
+							break
+						}
+						fresh = false
+					default:
+						fresh = false
+					}
+				}
+				addrTaken := false
+				for _, a := range fn.Assignments(vo) {
+					if _, isAddr := a.(*ast.UnaryExpr); isAddr {
+						addrTaken = true
+					}
+				}
+				if fresh && !addrTaken {
+					return
+				}
+			}
+		}
+	}
+	// an unexported wrapper `func f(xs T, …) T { …; return append(xs, …) }`: the duty to pass
+	// a temporary moves to the callers, all of which are visible
+	if id, isId := x.(*ast.Ident); isId && lhs == nil && fn.Lit == nil && fn.Obj != nil && !fn.Obj.Exported() {
+		if _, isRet := c.p.Parent(call).(*ast.ReturnStmt); isRet {
+			if po, isVar := info.ObjectOf(id).(*types.Var); isVar && fn.isParam(po) && len(fn.Assignments(po)) == 0 {
+				sig := fn.Obj.Type().(*types.Signature)
+				pi := -1
+				for k := 0; k < sig.Params().Len(); k++ {
+					if sig.Params().At(k) == po {
+						pi = k
+					}
+				}
+				if pi >= 0 && !sig.Variadic() {
+					nSites, bad := 0, ""
+					for _, g := range c.p.Funcs {
+						if g.Body == nil {
+							continue
+						}
+						ginfo := g.Info()
+						ast.Inspect(g.Body, func(n ast.Node) bool {
+							if lit, ok := n.(*ast.FuncLit); ok && lit != g.Lit {
+								return false
+							}
+							cs, ok := n.(*ast.CallExpr)
+							if !ok || calleeOf(ginfo, cs) != fn.Obj || pi >= len(cs.Args) {
+								return true
+							}
+							nSites++
+							a := ast.Unparen(cs.Args[pi])
+							temp := pathOf(ginfo, a) == ""
+							if se, ok := a.(*ast.SliceExpr); ok && se.Slice3 {
+								temp = true
+							}
+							if !temp && bad == "" {
+								bad = exprStr(a) + " at " + c.p.Pos(cs)
+							}
+							return true
+						})
+					}
+					// a function value taken elsewhere would hide call sites
+					escapes := false
+					for _, g := range c.p.Funcs {
+						if g.Body == nil || escapes {
+							continue
+						}
+						ginfo := g.Info()
+						ast.Inspect(g.Body, func(n ast.Node) bool {
+							if u, ok := n.(*ast.Ident); ok && ginfo.Uses[u] == types.Object(fn.Obj) {
+								if cs, isCall := c.p.Parent(u).(*ast.CallExpr); !isCall || cs.Fun != ast.Expr(u) {
+									escapes = true
+								}
+							}
+							return !escapes
+						})
+					}
+					construct := "append(" + exprStr(x) + ", …) returned by a wrapper"
+					if nSites > 0 && bad == "" && !escapes {
+						c.r.Add("E3.append-alias", fn.Name, construct, c.p.Pos(at), OK, fmt.Sprintf("every one of the %d call sites passes a temporary for %s", nSites, id.Name), true)
+						return
+					}
+					if bad != "" {
+						c.r.Add("E3.append-alias", fn.Name, construct, c.p.Pos(at), Violated,
+							"the wrapper appends to its parameter "+id.Name+" and returns the result; the caller passes "+bad+", a slice that stays live: both may share a backing array, so a later append through either overwrites the other's elements", true)
+						return
+					}
+				}
+			}
+		}
 	}
 	// x must not be used again after this statement, nor be a parameter/field owned elsewhere
 	construct := "append(" + exprStr(x) + ", …) bound to another variable"
@@ -1575,3 +1694,80 @@ var e3Mutators = map[string]string{
 }
 
 var e3Exceptions = map[string]string{}
+
+// strongFieldClass: the pointer written through is the field f of a struct *value* x that
+// lives in this function (a local, a value parameter or a value receiver: nobody else sees
+// it), x.f is assigned exactly once in the function, that assignment dominates the write,
+// and x is never re-assigned as a whole nor has its address taken: at the write x.f is what
+// that assignment stored (a strong update the flow-insensitive classes cannot express).
+func (c *e3) strongFieldClass(fn *Func, ptr ast.Expr, emb string, at ast.Node) (cls, bool) {
+	info := fn.Info()
+	var xid *ast.Ident
+	field := emb
+	if emb != "" {
+		xid, _ = ast.Unparen(ptr).(*ast.Ident)
+	} else if sel, ok := ast.Unparen(ptr).(*ast.SelectorExpr); ok {
+		xid, _ = ast.Unparen(sel.X).(*ast.Ident)
+		field = sel.Sel.Name
+	}
+	if xid == nil || field == "" {
+		return cls{}, false
+	}
+	xo, ok := info.ObjectOf(xid).(*types.Var)
+	if !ok || xo.IsField() || xo.Parent() == fn.Pkg.Types.Scope() {
+		return cls{}, false
+	}
+	if _, isStruct := xo.Type().Underlying().(*types.Struct); !isStruct {
+		return cls{}, false
+	}
+	if fn.Lit != nil && (xo.Pos() < fn.Lit.Pos() || xo.Pos() > fn.Lit.End()) {
+		return cls{}, false // captured from the enclosing function
+	}
+	// x itself: only its declaration may assign it; no &x
+	for _, a := range fn.Assignments(xo) {
+		if fn.isParam(xo) {
+			return cls{}, false
+		}
+		switch a.(type) {
+		case *ast.UnaryExpr, *ast.RangeStmt, *ast.IncDecStmt:
+			return cls{}, false
+		}
+		if a.Pos() > xo.Pos()+token.Pos(len(xo.Name())) {
+			return cls{}, false
+		}
+	}
+	var store *ast.AssignStmt
+	var rhs ast.Expr
+	n := 0
+	bad := false
+	ast.Inspect(fn.Body, func(k ast.Node) bool {
+		switch y := k.(type) {
+		case *ast.UnaryExpr:
+			if y.Op == token.AND {
+				if root, _ := pathSteps(y.X); root != nil && info.ObjectOf(root) == xo {
+					bad = true
+				}
+			}
+		case *ast.AssignStmt:
+			for i, l := range y.Lhs {
+				sel, ok := ast.Unparen(l).(*ast.SelectorExpr)
+				if !ok || sel.Sel.Name != field {
+					continue
+				}
+				if id, ok := ast.Unparen(sel.X).(*ast.Ident); ok && info.ObjectOf(id) == xo {
+					n++
+					if len(y.Lhs) == len(y.Rhs) && y.Tok == token.ASSIGN {
+						store, rhs = y, y.Rhs[i]
+					} else {
+						bad = true
+					}
+				}
+			}
+		}
+		return true
+	})
+	if bad || n != 1 || store == nil || !fn.Dominates(store, at) || store == at {
+		return cls{}, false
+	}
+	return c.classify(fn, rhs, 0), true
+}
